@@ -11,7 +11,8 @@ ASSUMPTIONS = ['sequential client; disks large enough that space is not the limi
 def model_diff(ctx, mode, nruns, nops):
     """a layer of the code driven directly by the harness (`h <mode>`), operation by operation, against its extracted
        model (`drv <mode>`): dirmodel = dir.LookupName/AddName/RemName + name cache vs DM; atmodel = alloctxn over the
-       real allocator and bitmap vs AT"""
+       real allocator and bitmap vs AT; icmodel = fstxn transactions locking / editing / logging / committing / aborting
+       inodes vs IC"""
     fails, ops = [], 0
     for k in range(nruns):
         seed = ctx.seed * 100 + k
@@ -24,7 +25,7 @@ def model_diff(ctx, mode, nruns, nops):
         rc2, o, e = vlib.sh('ulimit -s unlimited 2>/dev/null; exec %s %s %s' % (os.path.join(vlib.BIN, 'drv'), mode, trace), timeout=300)
         done = False
         for line in o.splitlines():
-            m = re.match(r'^[DA] (\d+) BAD (\S+?):(.*)$', line)
+            m = re.match(r'^[DAI] (\d+) BAD (\S+?):(.*)$', line)
             if m and not [f for f in fails if f.where == m.group(2)]:
                 fails.append(Failure(ctx.prop, mode, m.group(2), m.group(3)[:300], replay=dict(rep, op_index=int(m.group(1)))))
             m = re.match(r'^DONE ops=(\d+) bad=(\d+)', line)
